@@ -976,6 +976,9 @@ def extract_function(repo, spec, cfg, rw=None):
     rw = rw or Rewriter(cfg)
     self_type = spec.get('self')
     ret, cname, plist, refs = rw.signature(fn, spec['cname'], self_type)
+    if 'params_c' in spec:   # explicit C parameter list (after self) for signatures the rules cannot type
+        plist = plist[:1 if self_type else 0] + list(spec['params_c'])
+        refs = {}
     if 'ret' in spec:
         ret = spec['ret']
     body_src = text[fn['body_start']:fn['body_end'] + 1]
